@@ -178,7 +178,22 @@ def run(res, tier, seed, model_ok, search):
                 "is wrapped and checked against the lifecycle table, every request compared with a before/after snapshot. non-trivial = a request "
                 "was accepted or rejected; distinct = scenario index")
     simcheck.run(res, "C03", tier, seed, model_ok, search, n_quick=400, n_thorough=10000)
+    # live-exchange double (the histories of C11): an order never becomes live again after it was reported complete, and is
+    # not reported complete while it still rests at the exchange
+    from props import C11
+    sub = C11.live_findings(tier, seed, search)
+    res.evaluations += sub.evaluations
+    res.distribution["live-histories"] += sub.evaluations
+    for v in sub.violations:
+        if v["signature"] in ("revived-after-complete", "partial-cancel-overtaken-by-stream", "live-processing-crashed"):
+            res.violations.append(v)
+        elif v["signature"] == "not-converged" and "complete local True exchange False" in v["what"] or (
+                v["signature"] == "not-converged" and "local status EXECUTION_COMPLETE" in v["what"]):
+            res.violate("complete-while-resting-at-the-exchange", v["what"], v["replay"])
 
 
 def replay(payload):
+    if "scenario" not in (payload.get("replay") or {}):
+        from props import C11
+        return C11.replay(payload)        # a live-domain history
     return simcheck.generic_replay("C03", payload)
